@@ -10,9 +10,13 @@ pub const FCAP: usize = 128;
 pub static mut FILE_LEN: usize = 0;
 pub static mut FILE_DATA: [u8; FCAP] = [0; FCAP];
 pub static mut FILE_POS: usize = 0;
+/// bytes the metadata over-reports (the read then ends early: I/O error path of the loaders)
+pub static mut FILE_OVER: usize = 0;
 /// bytes handed to `<File as Write>::write` (store)
 pub static mut OUT_DATA: [u8; FCAP] = [0; FCAP];
 pub static mut OUT_LEN: usize = 0;
+/// length of the output file (it may pre-exist with older, longer contents)
+pub static mut OUT_FILE_LEN: usize = 0;
 /// last block handed out by the stubbed `std::alloc::alloc`
 pub static mut LAST_ALLOC: *mut u8 = core::ptr::null_mut();
 pub static mut LAST_SIZE: usize = 0;
@@ -23,15 +27,39 @@ pub fn metadata_stub(_p: &Path) -> io::Result<Metadata> {
     Ok(unsafe { core::mem::zeroed() })
 }
 pub fn len_stub(_m: &Metadata) -> u64 {
-    unsafe { FILE_LEN as u64 }
+    unsafe { (FILE_LEN + FILE_OVER) as u64 }
 }
 pub fn open_stub<P: AsRef<Path>>(_p: P) -> io::Result<File> {
     use std::os::fd::FromRawFd;
     Ok(unsafe { File::from_raw_fd(3) })
 }
+/// `File::create` = open for writing, create, TRUNCATE.
 pub fn create_stub<P: AsRef<Path>>(_p: P) -> io::Result<File> {
     use std::os::fd::FromRawFd;
-    unsafe { OUT_LEN = 0; }
+    unsafe { OUT_LEN = 0; OUT_FILE_LEN = 0; }
+    Ok(unsafe { File::from_raw_fd(4) })
+}
+// ---- model of OpenOptions (in case the code under test opens the output that way) ----
+pub static mut OO_TRUNCATE: bool = false;
+pub static mut OO_APPEND: bool = false;
+pub fn oo_new_stub() -> std::fs::OpenOptions {
+    unsafe { OO_TRUNCATE = false; OO_APPEND = false; core::mem::zeroed() }
+}
+pub fn oo_flag_stub(o: &mut std::fs::OpenOptions, _b: bool) -> &mut std::fs::OpenOptions { o }
+pub fn oo_truncate_stub(o: &mut std::fs::OpenOptions, b: bool) -> &mut std::fs::OpenOptions {
+    unsafe { OO_TRUNCATE = b; }
+    o
+}
+pub fn oo_append_stub(o: &mut std::fs::OpenOptions, b: bool) -> &mut std::fs::OpenOptions {
+    unsafe { OO_APPEND = b; }
+    o
+}
+pub fn oo_open_stub<P: AsRef<Path>>(_o: &std::fs::OpenOptions, _p: P) -> io::Result<File> {
+    use std::os::fd::FromRawFd;
+    unsafe {
+        if OO_TRUNCATE { OUT_FILE_LEN = 0; }
+        OUT_LEN = if OO_APPEND { OUT_FILE_LEN } else { 0 };
+    }
     Ok(unsafe { File::from_raw_fd(4) })
 }
 /// Delivers the whole request (short reads are C14's subject).
@@ -50,6 +78,7 @@ pub fn write_stub(_f: &mut File, buf: &[u8]) -> io::Result<usize> {
         assert!(OUT_LEN + n <= FCAP, "HARNESS: output fits");
         OUT_DATA[OUT_LEN..OUT_LEN + n].copy_from_slice(buf);
         OUT_LEN += n;
+        if OUT_LEN > OUT_FILE_LEN { OUT_FILE_LEN = OUT_LEN; }
         Ok(n)
     }
 }
@@ -105,6 +134,13 @@ macro_rules! fs_harness {
         #[cfg_attr(kani, kani::stub(std::fs::Metadata::len, crate::fsenv::len_stub))]
         #[cfg_attr(kani, kani::stub(std::fs::File::open, crate::fsenv::open_stub))]
         #[cfg_attr(kani, kani::stub(std::fs::File::create, crate::fsenv::create_stub))]
+        #[cfg_attr(kani, kani::stub(std::fs::OpenOptions::new, crate::fsenv::oo_new_stub))]
+        #[cfg_attr(kani, kani::stub(std::fs::OpenOptions::write, crate::fsenv::oo_flag_stub))]
+        #[cfg_attr(kani, kani::stub(std::fs::OpenOptions::create, crate::fsenv::oo_flag_stub))]
+        #[cfg_attr(kani, kani::stub(std::fs::OpenOptions::read, crate::fsenv::oo_flag_stub))]
+        #[cfg_attr(kani, kani::stub(std::fs::OpenOptions::truncate, crate::fsenv::oo_truncate_stub))]
+        #[cfg_attr(kani, kani::stub(std::fs::OpenOptions::append, crate::fsenv::oo_append_stub))]
+        #[cfg_attr(kani, kani::stub(std::fs::OpenOptions::open, crate::fsenv::oo_open_stub))]
         #[cfg_attr(kani, kani::stub(<std::fs::File as std::io::Read>::read, crate::fsenv::read_stub))]
         #[cfg_attr(kani, kani::stub(<std::fs::File as std::io::Write>::write, crate::fsenv::write_stub))]
         #[cfg_attr(kani, kani::stub(<std::fs::File as std::io::Write>::flush, crate::fsenv::flush_stub))]
